@@ -263,6 +263,18 @@ class C02(Prop):
         mk("ns-eof-in-class", "int keys() { return 1; }\nint keys;\nclass keys { int a;")
         mk("ns-then-use", "string write; void write(string s) { }\n", second="mixed f() { return write; }\nmixed g() { return (: write :); }\n")
         mk("fold-overflow", "int x = 9223372036854775807 + 1;\nint y = 4611686018427387904 * 4;\nint z = -9223372036854775807 - 10;\n")
+        # audit round: scratchpad / string scanner / comment at end of file
+        for n in (1, 3, 4, 6):
+            mk("escapes-%d-lines" % n, 'string f() { return "%s"; }\n' % "\n".join("\\q" * 200 for _ in range(n)))
+        mk("escapes-near-pad-end", 'string *g() { return ({ %s,\n "%s" }); }\n' % (",\n".join('"%s"' % (("a%03d" % i) * 20) for i in range(49)), "\\q" * 200))
+        mk("escapes-text-block", 'string f() { return @END\n%s\nEND\n; }\n' % "\n".join("\\q" * 150 for _ in range(8)))
+        for n in (253, 254, 255, 256, 257):
+            mk("scratch-ident-%d" % n, "int %s; int after_%d;\n" % ("i" * n, n))
+            mk("scratch-string-%d" % n, 'string f() { return "%s" "x"; }\n' % ("s" * n))
+        mk("scratch-many-idents", "void f() { %s }\n" % " ".join("u%s = 1;" % ("v" * (i % 200)) for i in range(120)))
+        mk("string-concat-long", 'string f() { return %s; }\n' % " ".join('"%s"' % ("c" * 100) for _ in range(30)))
+        mk("include-ends-in-comment", '#include "c.h"\nint after;\n', [("c.h", "int inc_var; // trailing comment without newline")])
+        mk("file-ends-in-comment", "int x; // no newline at end")
         mk("two-sources", "void f() { int time; { int time; } }", second="int g() { return time(); }")
         mk("empty", "")
         mk("nul-bytes", "int x;\x00\x00 int y;\n")
